@@ -439,6 +439,8 @@ def write_replay(pid, plan, violation, res_digest, tag=None, prefix=()):
     if sys.flags.optimize:
         # to be replayed under the same interpreter configuration (replay() sees to it)
         doc['python_optimize'] = sys.flags.optimize
+    if 'error' in sys.warnoptions:
+        doc['python_warnings'] = 'error'
     if prefix:
         # history dependent: these plans are executed first, in the same process
         doc['earlier_plans_in_same_process'] = list(prefix)
@@ -451,10 +453,12 @@ def write_replay(pid, plan, violation, res_digest, tag=None, prefix=()):
 def replay(pid, path):
     """Re-execute a replay file.  Returns (reproduced, result, doc)."""
     doc = json.load(open(path))
-    if int(doc.get('python_optimize', 0)) != sys.flags.optimize:
+    if int(doc.get('python_optimize', 0)) != sys.flags.optimize or \
+            (doc.get('python_warnings') == 'error') != ('error' in sys.warnoptions):
         # recorded under another interpreter configuration: replay it there
         import subprocess
         cmd = [sys.executable] + (['-O'] if doc.get('python_optimize') else []) + \
+            (['-W', 'error'] if doc.get('python_warnings') == 'error' else []) + \
             [os.path.join(VERIF, 'check.py'), doc.get('property', pid), '--replay', path]
         env = dict(os.environ)
         env.pop('PYTHONOPTIMIZE', None)
